@@ -202,5 +202,5 @@ def run(ctx):
     ctx.borrow(c09.r8, {'C09.R8': 'C10.R7'},
                'a field that is put into a part the telegram does not have is neither sent nor read back')
     import rules.common as _common
-    ctx.rule('C10.R8', 'arguments keep their roles across calls: at every call of a repository function in the field/data type sources (offset and length of a field must not be exchanged on the way to its reader or writer) whose arguments are named like parameters of the callee, no two of them are passed crosswise (argument i named like parameter j and argument j like parameter i)', minimum=40)
-    _common.swapped_args_rule(ctx, 'C10.R8', ('src/lib/ebus/data',), 40)
+    ctx.rule('C10.R8', 'arguments keep their roles across calls: at every call of a repository function in the field/data type sources (offset and length of a field must not be exchanged on the way to its reader or writer) whose arguments are named like parameters of the callee, no two of them are passed crosswise (argument i named like parameter j and argument j like parameter i)', minimum=15)
+    _common.swapped_args_rule(ctx, 'C10.R8', ('src/lib/ebus/data',), 15)
